@@ -6,8 +6,10 @@
      parse_request ...                                          what Endpoint/UserInfo.parse_request hands on
      credential_ok cx ep rq now jdb jdb' X m                    the property's disjunction, per method m:
         basic/post   the presented secret equals cdb[X].client_secret
-        *_jwt        client_assertion is a JWT with iss = X whose signature verifies under the single key of
-                     that type the key jar holds for X (HS: and that key is X's client_secret; or the MAC was
+        *_jwt        client_assertion is a JWT with iss = X whose signature verifies under a key of that type the
+                     key jar holds for X and the kid header selects (the keys carrying that kid; without kid the
+                     single key of that type) (HS: and the first symmetric key of X the kid selects is X's CURRENT
+                     client_secret, whatever superseded secrets the key jar still holds; or the MAC was
                      made with one of the provider's OWN symmetric keys), aud meets the endpoint's targets,
                      now < exp + 15 s, nbf <= now - 15 s, and its jti was not in the replay cache before and is after
         request_param  the same for the request object, WITHOUT any audience condition (see the refuted lemma)
@@ -34,14 +36,92 @@ Theorem C01_sound : forall cx ep rq now jdb jdb' ai X,
 Proof. exact sound. Qed.
 Print Assumptions C01_sound.
 
-(* client_secret_jwt, literally: if the provider has no symmetric keys of its own, the MAC key IS X's secret *)
+(* client_secret_jwt, literally: if the provider has no symmetric keys of its own, the MAC key IS X's secret - the
+   one the client database holds NOW, whatever other symmetric keys (superseded secrets) are filed under X in the
+   key jar.  For a JWS header without kid unconditionally (the statement of the kid-less model, unchanged); for a
+   header with a kid provided no two symmetric keys of X carry the same kid (kids are thumbprints). *)
 Theorem C01_hs_signed_with_secret : forall cx ep rq now jdb jdb' X c s,
   credential_ok cx ep rq now jdb jdb' X MSecretJwt ->
   filter (vkey_is AlgHS) (kj_own (cx_kj cx)) = [] ->
   assoc X (cx_cdb cx) = Some c -> c_secret c = Some s -> s <> [] ->
-  exists j, r_assertion rq = Some (Jwt j) /\ j_alg j = AlgHS /\ j_key j = KSym s.
+  exists j, r_assertion rq = Some (Jwt j) /\ j_alg j = AlgHS
+    /\ (kid_given (j_kid j) = None \/ oct_kids_distinct (cx_kj cx) X -> j_key j = KSym s).
 Proof. exact hs_signed_with_secret. Qed.
 Print Assumptions C01_hs_signed_with_secret.
+
+(* (1b) The credential HISTORY of a client.  What the key jar holds under an id is a matter of history (a deployer
+   files a new secret NEXT TO the old one: keyjar.add_symmetric only appends); the client database holds the
+   current record.  In ANY state (any client database, any key jar), a request accepted as X through
+   client_secret_basic / client_secret_post / client_secret_jwt was made with the secret X's record holds now
+   (made_with_secret: the Basic pair is (X, s); the body carries client_id X and client_secret s; the assertion is
+   an HS JWT whose MAC key is s). *)
+Theorem C01_current_secret_only : forall cx ep rq now jdb jdb' ai X c s,
+  client_authentication cx ep rq now jdb = (Ok (Some ai), jdb') ->
+  ai_client ai = Some X ->
+  assoc X (cx_cdb cx) = Some c -> c_secret c = Some s -> s <> [] ->
+  filter (vkey_is AlgHS) (kj_own (cx_kj cx)) = [] ->
+  made_with_secret cx rq X s (ai_method ai).
+Proof. exact current_secret_only. Qed.
+Print Assumptions C01_current_secret_only.
+
+(* The operations on the credentials (Model: cred_op): CReg an ACCEPTED registration - for a new id and for an id
+   that is or was in use alike - replaces the record and everything the key jar held under the id; CRefused a
+   refused one (no effect); CDel deletion from the client database; CFile / CSet what a deployer does by hand
+   (file further keys under an id, store another record).
+   After an accepted (re-)registration r of X = rg_id r on top of ANY earlier state cx0 (e.g. one whose key jar
+   holds X's earlier secret and keys) and any history h about OTHER clients, the material in force for X is
+   exactly what r brought: its record, the keys of its jwks and its secret. *)
+Theorem C01_registration_in_force : forall cx0 r h, untouched (rg_id r) h = true ->
+  assoc (rg_id r) (cx_cdb (cred_run (register cx0 r) h)) = Some (rg_client r)
+  /\ assoc (rg_id r) (kj_iss (cx_kj (cred_run (register cx0 r) h))) = Some (in_force r).
+Proof. exact registration_in_force. Qed.
+Print Assumptions C01_registration_in_force.
+
+(* after a refused registration the material in force is exactly what was in force before *)
+Theorem C01_refused_registration_no_effect : forall cx r h, cred_run cx (CRefused r :: h) = cred_run cx h.
+Proof. exact refused_registration_no_effect. Qed.
+Print Assumptions C01_refused_registration_no_effect.
+
+(* rotation: only the secret s2 of the last registration authenticates X through the secret-based methods ... *)
+Theorem C01_rotation_sound : forall cx0 r h ep rq now jdb jdb' ai s2,
+  untouched (rg_id r) h = true ->
+  c_secret (rg_client r) = Some s2 -> s2 <> [] ->
+  filter (vkey_is AlgHS) (kj_own (cx_kj cx0)) = [] ->
+  client_authentication (cred_run (register cx0 r) h) ep rq now jdb = (Ok (Some ai), jdb') ->
+  ai_client ai = Some (rg_id r) ->
+  made_with_secret (cred_run (register cx0 r) h) rq (rg_id r) s2 (ai_method ai).
+Proof. exact rotation_sound. Qed.
+Print Assumptions C01_rotation_sound.
+
+(* ... and the signature of an accepted assertion / request object verifies under a key the last registration
+   brought (a key of its jwks, its secret) or - HMAC - one of the provider's own symmetric keys: key material of
+   an earlier registration of X (a replaced jwks key, a superseded secret) never authenticates X again *)
+Theorem C01_rotation_keys : forall cx0 r h ep rq now jdb jdb' ai j,
+  untouched (rg_id r) h = true ->
+  client_authentication (cred_run (register cx0 r) h) ep rq now jdb = (Ok (Some ai), jdb') ->
+  ai_client ai = Some (rg_id r) ->
+  used_jwt rq (ai_method ai) = Some j ->
+  exists v, key_verifies (j_alg j) (j_key j) v = true
+    /\ (In v (in_force r) \/ (j_alg j = AlgHS /\ In v (kj_own (cx_kj cx0)))).
+Proof. exact rotation_keys. Qed.
+Print Assumptions C01_rotation_keys.
+
+(* a deployer who files a new secret NEXT TO the old one (keyjar.add_symmetric appends) and stores the new record:
+   the key jar holds both (so the signature of an assertion MACed with the old secret under its kid does verify);
+   C01_current_secret_only says it is refused all the same *)
+Theorem C01_filed_keys_accumulate : forall cx i ks kids l,
+  assoc i (kj_iss (cx_kj cx)) = Some l ->
+  assoc i (kj_iss (cx_kj (file_keys cx i ks kids))) = Some (l ++ ks).
+Proof. exact filed_keys_accumulate. Qed.
+Print Assumptions C01_filed_keys_accumulate.
+
+(* an operation about one client leaves every other client's record and keys (and the provider's own keys) alone *)
+Theorem C01_credentials_isolated : forall cx o i, op_client o <> i ->
+  assoc i (cx_cdb (cred_step cx o)) = assoc i (cx_cdb cx)
+  /\ assoc i (kj_iss (cx_kj (cred_step cx o))) = assoc i (kj_iss (cx_kj cx))
+  /\ kj_own (cx_kj (cred_step cx o)) = kj_own (cx_kj cx).
+Proof. exact credentials_isolated. Qed.
+Print Assumptions C01_credentials_isolated.
 
 (* The full statement "every accepted JWT credential is addressed to this endpoint or the issuer" is FALSE of
    the faithful model when request_param is among the endpoint's methods: RequestParam._verify checks no
@@ -62,7 +142,9 @@ Definition wit_cdb : list (pystr * client) :=
    (PS "c2", {| c_secret := Some (PS "s2"); c_expires := Some 0%Z; c_methods := None; c_ep_methods := [] |});
    (PS "c3", {| c_secret := None; c_expires := None; c_methods := None; c_ep_methods := [] |})].
 Definition wit_kj : keyjar :=
-  {| kj_iss := [(PS "c1", [VOct (PS "s1")]); (PS "c2", [VOct (PS "s2"); VRsa 1; VEc 1])]; kj_own := [VRsa 0; VEc 0] |}.
+  {| kj_iss := [(PS "c1", [VOct (PS "s1")]); (PS "c2", [VOct (PS "s2"); VRsa 1; VEc 1])]; kj_own := [VRsa 0; VEc 0];
+     kj_kid := [(VOct (PS "s1"), PS "kid-s1"); (VOct (PS "s2"), PS "kid-s2"); (VRsa 1, PS "kid-r1"); (VEc 1, PS "kid-e1");
+                (VRsa 0, PS "kid-r0"); (VEc 0, PS "kid-e0")] |}.
 Definition wit_cx : actx :=
   {| cx_cdb := wit_cdb; cx_kj := wit_kj; cx_tok := tok_table [(PS "T1", TokClient (PS "c1"))] |}.
 Definition wit_ep (ms : list meth) : endpoint :=
@@ -72,7 +154,7 @@ Definition no_cred : request :=
   {| r_hdr := HAbsent; r_client_id := None; r_client_secret := None; r_access_token := None;
      r_assertion := None; r_request := None; r_authflag := false |}.
 Definition wit_jwt (a : alg) (k : skey) (iss : pystr) (aud : option (list pystr)) (jti : option pystr) : jwt :=
-  {| j_alg := a; j_key := k; j_iss := Some iss; j_sub := Some iss; j_azp := None; j_cid := None; j_aud := aud;
+  {| j_alg := a; j_key := k; j_kid := None; j_iss := Some iss; j_sub := Some iss; j_azp := None; j_cid := None; j_aud := aud;
      j_exp := Some 1300%Z; j_nbf := None; j_iat := None; j_jti := jti |}.
 
 Theorem C01_request_param_audience_refuted :
@@ -288,7 +370,7 @@ Proof. vm_compute. repeat split. Qed.
    secret is refused *)
 Definition hs1_inner (s a c : option pystr) := jwt_with_inner s a c hs1.
 Definition hs1_no_iss (s : option pystr) : jwt :=
-  {| j_alg := AlgHS; j_key := KSym (PS "s1"); j_iss := None; j_sub := s; j_azp := None; j_cid := None;
+  {| j_alg := AlgHS; j_key := KSym (PS "s1"); j_kid := None; j_iss := None; j_sub := s; j_azp := None; j_cid := None;
      j_aud := Some [PS "https://op/token"]; j_exp := Some 1300%Z; j_nbf := None; j_iat := None; j_jti := Some (PS "j8") |}.
 Example C01_nonvacuous_inner_claims :
   fst (parse_request wit_cx (wit_ep all4) (with_body_id (rq_assert (hs1_inner (Some (PS "c2")) None None)) (PS "c2")) 1000 [])
@@ -305,6 +387,102 @@ Example C01_nonvacuous_inner_claims :
                           (wit_jwt AlgHS (KSym (PS "s1")) (PS "c2") (Some [PS "https://op/token"]) None))) 1000 [])
     = Err ClientAuthenticationError.
 Proof. vm_compute. repeat split. Qed.
+
+(* rotation by hand: the deployer files the new secret s1b of c1 next to s1 and stores the new record.  The key jar
+   then holds s1 AND s1b for c1.  An assertion MACed with s1 (kid of s1: the signature verifies!) is refused, so
+   is one MACed with s1 that names the kid of s1b (bad signature), so are kid-less ones (two symmetric keys: none
+   is selected); MACed with s1b under its kid it is accepted; Basic with s1 is refused, POST with s1b accepted; c2
+   is served as before; and the kid header selects among the keys also before any rotation. *)
+Definition with_kid_hdr (k : pystr) (j : jwt) : jwt :=
+  {| j_alg := j_alg j; j_key := j_key j; j_kid := Some k; j_iss := j_iss j; j_sub := j_sub j; j_azp := j_azp j;
+     j_cid := j_cid j; j_aud := j_aud j; j_exp := j_exp j; j_nbf := j_nbf j; j_iat := j_iat j; j_jti := j_jti j |}.
+Definition c1_new : client := {| c_secret := Some (PS "s1b"); c_expires := None; c_methods := None; c_ep_methods := [] |}.
+Definition rot_cx : actx :=
+  cred_run wit_cx [CFile (PS "c1") [VOct (PS "s1b")] [(VOct (PS "s1b"), PS "kid-s1b")]; CSet (PS "c1") c1_new].
+Definition hs_of (sec : string) := wit_jwt AlgHS (KSym (PS sec)) (PS "c1") (Some [PS "https://op/token"]) (Some (PS "j9")).
+Definition post_c1 (sec : string) : request :=
+  {| r_hdr := HAbsent; r_client_id := Some (PS "c1"); r_client_secret := Some (PS sec);
+     r_access_token := None; r_assertion := None; r_request := None; r_authflag := false |}.
+Example C01_nonvacuous_rotation_by_hand :
+  assoc (PS "c1") (kj_iss (cx_kj rot_cx)) = Some [VOct (PS "s1"); VOct (PS "s1b")]
+  /\ fst (client_authentication rot_cx (wit_ep all4) (rq_assert (with_kid_hdr (PS "kid-s1") (hs_of "s1"))) 1000 [])
+     = Err UnAuthorizedClient
+  /\ fst (client_authentication rot_cx (wit_ep all4) (rq_assert (with_kid_hdr (PS "kid-s1b") (hs_of "s1"))) 1000 [])
+     = Err ClientAuthenticationError
+  /\ fst (client_authentication rot_cx (wit_ep all4) (rq_assert (hs_of "s1")) 1000 []) = Err UnAuthorizedClient
+  /\ fst (client_authentication rot_cx (wit_ep all4) (rq_assert (hs_of "s1b")) 1000 []) = Err UnAuthorizedClient
+  /\ accepted_as (client_authentication rot_cx (wit_ep all4) (rq_assert (with_kid_hdr (PS "kid-s1b") (hs_of "s1b"))) 1000 [])
+       (PS "c1") MSecretJwt = true
+  /\ fst (client_authentication rot_cx (wit_ep all4) rq_basic 1000 []) = Err ClientAuthenticationError
+  /\ accepted_as (client_authentication rot_cx (wit_ep all4) (post_c1 "s1b") 1000 []) (PS "c1") MPost = true
+  /\ accepted_as (client_authentication rot_cx (wit_ep all4) rq_post 1000 []) (PS "c2") MPost = true
+  /\ accepted_as (client_authentication rot_cx (wit_ep all4) (rq_assert (with_kid_hdr (PS "kid-e1") es2)) 1000 []) (PS "c2") MPrivateJwt = true
+  /\ accepted_as (client_authentication wit_cx (wit_ep all4) (rq_assert (with_kid_hdr (PS "kid-s1") (hs_of "s1"))) 1000 [])
+       (PS "c1") MSecretJwt = true
+  /\ fst (client_authentication wit_cx (wit_ep all4) (rq_assert (with_kid_hdr (PS "kid-s2") (hs_of "s1"))) 1000 [])
+     = Err UnAuthorizedClient
+  /\ oct_kids_distinct (cx_kj rot_cx) (PS "c1").
+Proof.
+  repeat (split; [vm_compute; reflexivity|]).
+  intros l v v' Hl Hv Hv' _ _ Hk. vm_compute in Hl. inversion Hl; subst l.
+  destruct Hv as [<-|[<-|[]]]; destruct Hv' as [<-|[<-|[]]]; try reflexivity; vm_compute in Hk; discriminate.
+Qed.
+
+(* rotation by registration: c2 (secret s2, keys RSA 1 / EC 1) registers anew under its id with the key RSA 2 and
+   gets the secret s2b: the key jar holds exactly RSA 2 and s2b for c2.  Assertions signed with the replaced RSA 1 /
+   EC 1 or MACed with s2 are refused (whatever kid they name), Basic / POST with s2 are refused; RSA 2 and s2b
+   authenticate; c1 is served as before.  A refused registration changes nothing. *)
+Definition rereg_c2 : registration :=
+  {| rg_id := PS "c2";
+     rg_client := {| c_secret := Some (PS "s2b"); c_expires := Some 0%Z; c_methods := None; c_ep_methods := [] |};
+     rg_keys := [VRsa 2]; rg_kids := [(VRsa 2, PS "kid-r2"); (VOct (PS "s2b"), PS "kid-s2b")] |}.
+Definition reg_cx : actx := cred_run wit_cx [CReg rereg_c2].
+Definition jw2 (a : alg) (k : skey) := wit_jwt a k (PS "c2") (Some [PS "https://op/token"]) (Some (PS "j5")).
+Example C01_nonvacuous_rotation_by_registration :
+  assoc (PS "c2") (kj_iss (cx_kj reg_cx)) = Some [VRsa 2; VOct (PS "s2b")]
+  /\ fst (client_authentication reg_cx (wit_ep all4) (rq_assert (with_kid_hdr (PS "kid-r1") (jw2 AlgRS (KRsa 1)))) 1000 [])
+     = Err UnAuthorizedClient
+  /\ fst (client_authentication reg_cx (wit_ep all4) (rq_assert (jw2 AlgRS (KRsa 1))) 1000 []) = Err ClientAuthenticationError
+  /\ fst (client_authentication reg_cx (wit_ep all4) (rq_assert (with_kid_hdr (PS "kid-r2") (jw2 AlgRS (KRsa 1)))) 1000 [])
+     = Err ClientAuthenticationError
+  /\ fst (client_authentication reg_cx (wit_ep all4) (rq_assert es2) 1000 []) = Err UnAuthorizedClient
+  /\ fst (client_authentication reg_cx (wit_ep all4) (rq_assert (with_kid_hdr (PS "kid-s2") (jw2 AlgHS (KSym (PS "s2"))))) 1000 [])
+     = Err UnAuthorizedClient
+  /\ fst (client_authentication reg_cx (wit_ep all4) rq_post 1000 []) = Err ClientAuthenticationError
+  /\ accepted_as (client_authentication reg_cx (wit_ep all4) (rq_assert (with_kid_hdr (PS "kid-r2") (jw2 AlgRS (KRsa 2)))) 1000 [])
+       (PS "c2") MPrivateJwt = true
+  /\ accepted_as (client_authentication reg_cx (wit_ep all4) (rq_assert (jw2 AlgRS (KRsa 2))) 1000 []) (PS "c2") MPrivateJwt = true
+  /\ accepted_as (client_authentication reg_cx (wit_ep all4) (rq_assert (jw2 AlgHS (KSym (PS "s2b")))) 1000 []) (PS "c2") MSecretJwt = true
+  /\ accepted_as (client_authentication reg_cx (wit_ep all4) rq_basic 1000 []) (PS "c1") MBasic = true
+  /\ cred_run wit_cx [CRefused rereg_c2] = wit_cx.
+Proof. repeat (split; [vm_compute; reflexivity|]). reflexivity. Qed.
+
+(* RECORDED FINDING key=request_param-superseded-secret: the statement of C01_current_secret_only does NOT extend to
+   method request_param.  RequestParam._verify has no counterpart of client_secret_jwt's "the first symmetric key
+   the kid selects is the client's secret" test: in the by-hand rotation state above (key jar of c1: s1 and s1b,
+   record: s1b, kids distinct, no symmetric keys of the provider's own) a request OBJECT MACed with the superseded
+   s1 under the kid of s1 authenticates c1. *)
+Theorem C01_request_param_superseded_secret_refuted :
+  exists cx ep rq now jdb jdb' ai j c s,
+    client_authentication cx ep rq now jdb = (Ok (Some ai), jdb')
+    /\ ai_client ai = Some (PS "c1") /\ ai_method ai = MRequestParam /\ authenticating (ai_method ai) = true
+    /\ used_jwt rq (ai_method ai) = Some j /\ j_alg j = AlgHS
+    /\ assoc (PS "c1") (cx_cdb cx) = Some c /\ c_secret c = Some s /\ s <> []
+    /\ filter (vkey_is AlgHS) (kj_own (cx_kj cx)) = [] /\ oct_kids_distinct (cx_kj cx) (PS "c1")
+    /\ j_key j <> KSym s.
+Proof.
+  exists rot_cx, (wit_ep [MPost; MRequestParam]),
+    {| r_hdr := HAbsent; r_client_id := None; r_client_secret := None; r_access_token := None; r_assertion := None;
+       r_request := Some (Jwt (with_kid_hdr (PS "kid-s1") (hs_of "s1"))); r_authflag := false |}, 1000%Z, [], [PS "c1:j9"].
+  eexists. eexists. exists c1_new, (PS "s1b").
+  split; [vm_compute; reflexivity|].
+  repeat (split; [reflexivity|]).
+  split; [discriminate|]. split; [reflexivity|].
+  split; [exact (proj2 (proj2 (proj2 (proj2 (proj2 (proj2 (proj2 (proj2 (proj2 (proj2 (proj2 (proj2
+            C01_nonvacuous_rotation_by_hand))))))))))))|].
+  vm_compute. discriminate.
+Qed.
+Print Assumptions C01_request_param_superseded_secret_refuted.
 
 (* a history in which the same assertion is presented three times is accepted exactly once *)
 Example C01_nonvacuous_replay :
